@@ -2,8 +2,8 @@
 import vlib
 from vlib import mk_case, hexs
 
-TRUSTED = ["validator loads_ok (Comp/ModStore.v, extracted) on the LOADMODULE operands of every function", "harness globals `log` array: every module body appends its name when it starts"]
-ASSUMPTIONS = ["module bodies in generated graphs do not throw (a body that fails before returning is executed again by a later import)",
+TRUSTED = ["the driver's split of a path string at '/' into the elements the model fi_name works on, and the join back (ocaml/c13.ml); Go's path/filepath on Unix is modelled (Clean, Join, IsAbs, Abs), symbolic links are not looked at by either", "validator loads_ok (Comp/ModStore.v, extracted) on the LOADMODULE operands of every function", "harness globals `log` array: every module body appends its name when it starts"]
+ASSUMPTIONS = ["module bodies in generated graphs do not throw; bodies that throw are covered by hand-made programs and the theorems C12_body_completes_at_most_once / C12_body_at_most_once_refuted (known finding D12t)",
                "objects reached through another module's returned map are copies (STOREMODULE deep-copies); only the import expressions of one module are compared"]
 
 def module_src(rng, k, deps):
@@ -51,6 +51,116 @@ def main_src(rng, nmods):
     lines.append("return [out, log]")
     return "\n".join(lines) + "\n"
 
+# ---- file modules (importers.FileImporter) over a virtual tree <cwd>/vroot ----
+FDIRS = [[], ["a"], ["a", "b"], ["s"], ["s", "t"]]
+
+def spell(rng, frm, tgt, kind=None):
+    """a spelling of the file tgt (elements below the process directory) for an import written in a file of the
+    directory frm (elements below the process directory)"""
+    kind = rng.randrange(8) if kind is None else kind
+    common = 0
+    while common < len(frm) and common < len(tgt) - 1 and frm[common] == tgt[common]: common += 1
+    rel = [".."] * (len(frm) - common) + tgt[common:]
+    if kind == 0: return "/".join(rel)
+    if kind == 1: return "./" + "/".join(rel)
+    if kind == 2:
+        out = list(rel)
+        for _ in range(rng.randrange(1, 4)):
+            i = rng.randrange(len(out))
+            if out[i] == "..": continue
+            out[i:i] = rng.choice([["."], ["x9", ".."], ["x9", "y9", "..", ".."], [""]])
+        return "/".join(out) if out[0] != "" else "./" + "/".join(out)
+    if kind == 3:
+        # above the process directory and back
+        return "/".join([".."] * (len(frm) + 1) + ["@CWDBASE@"] + tgt)
+    if kind == 4: return "@ROOT@/" + "/".join(tgt[1:])
+    if kind == 5:
+        t = tgt[1:]
+        i = rng.randrange(len(t))
+        t[i:i] = rng.choice([["."], ["x9", ".."], [""]])
+        return "@ROOT@/" + "/".join(t)
+    if kind == 6: return "/".join(rel[:-1] + ["", rel[-1]]) if len(rel) > 1 else "./" + "/" + rel[0]
+    return "/".join([".."] * (len(frm) - common) + ["."] + tgt[common:])
+
+def file_graph(rng):
+    nm = rng.randrange(2, 6)
+    dirs = {k: ["vroot"] + rng.choice(FDIRS) for k in range(1, nm + 1)}
+    tgt = {k: dirs[k] + ["f%d.ugo" % k] for k in dirs}
+    deps = {k: [d for d in range(k + 1, nm + 1) if rng.random() < .6] for k in dirs}
+    files, uses = [], []
+    for k in dirs:
+        src = "global log\nlog = append(log, \"f%d\")\nstate := 0\n" % k
+        for d in deps[k]:
+            for rep in range(rng.randrange(1, 3)):
+                sp = spell(rng, dirs[k], tgt[d])
+                uses.append(("@ROOT@/" + "/".join(dirs[k][1:]) if len(dirs[k]) > 1 else "@ROOT@", sp))
+                src += "d%d_%d := import(\"%s\")\n" % (d, rep, sp)
+        src += "return {set: func(v) { state = v }, get: func() { return state }, name: \"f%d\"}\n" % k
+        files.append(("/".join(tgt[k][1:]), src))
+    # the main script: its directory is the process directory, the root of the tree or a directory of it
+    mdir = rng.choice([[], ["vroot"], ["vroot", "a"], ["vroot", "s", "t"]])
+    wd_kind = rng.randrange(4)
+    if wd_kind == 0: wd = "/".join(mdir) if mdir else rng.choice([".", ""])
+    elif wd_kind == 1: wd = "./" + "/".join(mdir + ["."])
+    elif wd_kind == 2: wd = "@ROOT@/../" + "/".join(mdir) if mdir else "@ROOT@/.."
+    else: wd = "/".join(mdir + ["x9", ".."])
+    lines = ["global log", "out := []"]
+    imported = []
+    for step in range(rng.randrange(3, 9)):
+        m = rng.randrange(1, nm + 1)
+        sp = spell(rng, mdir, tgt[m])
+        uses.append((wd, sp))
+        lines.append("v%d := import(\"%s\")" % (step, sp)); imported.append(("v%d" % step, m))
+    for i, (a, ma) in enumerate(imported):
+        lines.append("out = append(out, [\"name\", %s.name == \"f%d\"])" % (a, ma))
+        for b, mb in imported[i + 1:]:
+            if ma == mb: lines.append("%s.set(%d)\nout = append(out, [\"same\", %s.get() == %d])" % (a, 1000 + i, b, 1000 + i))
+    lines.append("return [out, log]")
+    return wd, files, "\n".join(lines) + "\n", uses
+
+def run_file_modules(rng, tier, fails):
+    n = 150 if tier == "quick" else 3000
+    cases, uses = [], []
+    for i in range(n):
+        wd, files, main, us = file_graph(rng)
+        c = mk_case("fi%d" % i, "fileimp", rng.choice(["opt", "noopt"]), hexs(wd.encode()), ["files"] + [[hexs(p.encode()), hexs(s.encode())] for p, s in files], hexs(main.encode()))
+        c["main"], c["mods"] = "// work directory: %s\n" % wd + main, ["// file %s\n%s" % (p, s) for p, s in files]
+        cases.append(c); uses += us
+    probe = mk_case("ficwd", "finame")
+    impl, _ = vlib.run_impl([c["line"] for c in cases] + [probe["line"]], timeout=1200)
+    ran = 0
+    for c in cases:
+        out = impl.get(c["id"]); c["impl"] = out
+        if out is None or not out.startswith("(fileimp"): fails.append((c, "file modules: unexpected " + str(out)[:300])); continue
+        sx = vlib.parse_sexp(out)
+        r, log = sx[1], sx[2]
+        if r[0] != "ok": fails.append((c, "file modules: run failed: " + vlib.sexp_str(r)[:300])); continue
+        names = [vlib.unhex(x[1]).decode() for x in log[1:]]
+        if len(names) != len(set(names)):
+            fails.append((c, "the body of a file module executed more than once in one run (one file reached through two spellings of its path): %s" % names)); continue
+        bad = [vlib.unhex(item[1][1]).decode() for item in r[1][1][1:] if item[2] != ["b", "1"]]
+        if bad: fails.append((c, "two imports of one file do not see the same module (%s probe failed)" % bad[0])); continue
+        ran += 1
+    # the importer's name for every (work directory, spelling) used, against the model fi_name
+    cwd = vlib.unhex(vlib.parse_sexp(impl["ficwd"])[1][1]).decode()
+    sub = lambda x: x.replace("@ROOT@", cwd + "/vroot").replace("@CWDBASE@", cwd.rsplit("/", 1)[1])
+    pairs = sorted(set((sub(w), sub(s)) for w, s in uses)) + [("", ""), ("a", ""), ("/", ".."), ("", "/"), ("/a/b", "../../../.."), ("a/../..", "b"), ("", "..")]
+    ncases, mcases = [], []
+    for j in range(0, len(pairs), 50):
+        chunk = pairs[j:j + 50]
+        ncases.append(mk_case("fn%d" % j, "finame", *[[hexs(w.encode()), hexs(s.encode())] for w, s in chunk]))
+        mcases.append(mk_case("fn%d" % j, "finame", hexs(cwd.encode()), *[[hexs(w.encode()), hexs(s.encode())] for w, s in chunk]))
+    impl2, _ = vlib.run_impl([c["line"] for c in ncases], timeout=600)
+    model, _ = vlib.run_model([c["line"] for c in mcases], timeout=600)
+    dis = []
+    for c, j in zip(ncases, range(0, len(pairs), 50)):
+        a, b = vlib.parse_sexp(impl2.get(c["id"], "(none)")), vlib.parse_sexp(model.get(c["id"], "(none)"))
+        got, want = a[2:], b[1:]
+        for (w, s), x, y in zip(pairs[j:j + 50], got, want):
+            if x != y: dis.append((w, s, x, y))
+        if len(got) != len(want) or len(got) != len(pairs[j:j + 50]): dis.append(("?", "?", str(a)[:200], str(b)[:200]))
+    return ran, len(pairs), dis, cases
+
 def run(rep, br, proofs, rng, tier):
     n = 300 if tier == "quick" else 6000
     cases = []
@@ -88,6 +198,21 @@ def run(rep, br, proofs, rng, tier):
         c = mk_case("wide%d" % N, "modgraph", "opt", "0", hexs(main.encode()), *[hexs(m.encode()) for m in mods])
         c["main"], c["mods"], c["expect"] = main, mods[:2], "run"
         cases.append(c)
+    # module bodies that throw: the body returns at most once (theorem C12_body_completes_at_most_once); that a body
+    # which threw is started again by the next import is the known finding D12t (C12_body_at_most_once_refuted)
+    TH = [("throws-always", "global log\nout := []\ntry { import(\"m1\") } catch e { out = append(out, \"c1\") }\ntry { import(\"m1\") } catch e { out = append(out, \"c2\") }\nreturn [out, log]\n",
+           ["global log\nlog = append(log, \"m1\")\nthrow \"x\"\n"]),
+          ("throws-first-time", "global log\nout := []\ntry { import(\"m1\") } catch e { out = append(out, \"c1\") }\na := import(\"m1\")\nb := import(\"m1\")\na.set(5)\n"
+           "out = append(out, [\"same\", b.get() == 5])\nf := func() { return import(\"m1\") }\nout = append(out, [\"same\", f().get() == 5])\nreturn [out, log]\n",
+           ["global (log, flag)\nlog = append(log, \"m1\")\nstate := 0\nif !flag { flag = true; throw \"x\" }\nlog = append(log, \"m1-done\")\nreturn {set: func(v) { state = v }, get: func() { return state }}\n"]),
+          ("throws-in-dependency", "global log\nout := []\ntry { import(\"m1\") } catch e { out = append(out, \"c1\") }\ntry { import(\"m2\") } catch e { out = append(out, \"c2\") }\ntry { import(\"m1\") } catch e { out = append(out, \"c3\") }\nreturn [out, log]\n",
+           ["global log\nlog = append(log, \"m1\")\nx := import(\"m2\")\nlog = append(log, \"m1-done\")\nreturn {x: x}\n", "global log\nlog = append(log, \"m2\")\nthrow \"y\"\n"])]
+    for name, main, mods in TH:
+        for opt in ("opt", "noopt"):
+            c = mk_case("th.%s.%s" % (name, opt), "modgraph", opt, "0", hexs(main.encode()), *[hexs(m.encode()) for m in mods])
+            c["main"], c["mods"], c["expect"], c["throwing"] = main, mods, "run", True
+            cases.append(c)
+    known = {k["id"] for k in vlib.load_known("C12")}
     impl, _ = vlib.run_impl([c["line"] for c in cases], timeout=2400)
     fails, ran, cyc = [], 0, 0
     vcases = []
@@ -108,6 +233,15 @@ def run(rep, br, proofs, rng, tier):
         if r1[0] != "ok": fails.append((c, "run failed: " + vlib.sexp_str(r1)[:300])); continue
         ran += 1
         names = [vlib.unhex(x[1]).decode() for x in log1[1:]]
+        if c.get("throwing"):
+            done = [x for x in names if x.endswith("-done")]
+            if len(done) != len(set(done)):
+                fails.append((c, "a module body returned more than once in one run: %s" % names)); continue
+            starts = [x for x in names if not x.endswith("-done")]
+            if len(starts) != len(set(starts)):
+                if "D12t" in known: rep.known("D12t", "a module body that throws is started again by the next import executed in the same run (program %s: bodies started %s)" % (c["id"].split(".")[1], starts))
+                else: fails.append((c, "a module body executed more than once in one run: %s" % names)); continue
+            names = []
         if len(names) != len(set(names)):
             fails.append((c, "a module body executed more than once in one run: %s" % names)); continue
         outarr = r1[1][1]
@@ -122,11 +256,18 @@ def run(rep, br, proofs, rng, tier):
     for c, v in vcases:
         if model.get(v["id"]) != "(b 1)":
             fails.append((c, "LOADMODULE operands of the Bytecode are inconsistent (validator loads_ok): %s" % v["line"][:300]))
+    nfail = len(fails)
+    fran, npairs, dis, fcases = run_file_modules(rng, tier, fails)
     for c, why in fails[:10]:
         rep.violation({"property": "C12", "kind": "oracle", "why": why, "case": c["line"][:2000], "script": c["main"] + "\n--- modules ---\n" + "\n---\n".join(c["mods"])})
+    if len(fails) == nfail:
+        for w, sp, x, y in dis[:5]:
+            rep.violation({"property": "C12", "kind": "correspondence", "theorem": "C12_file_name_is_place",
+                           "why": "FileImporter.Name and the model fi_name (Comp/ImportPath.v) differ: work directory %r, import %r: implementation %s, model %s" % (w, sp, x, y)}, found=False)
     rep.coverage.update({
-        "evaluations": len(cases), "distinct_nontrivial": ran + cyc,
-        "rule": "programs with 255, 256, 257 and 300 modules (module indexes around the byte boundary of the operand) with state and identity probes; generated import graphs over 1-5 source modules (DAGs with imports at top level, under conditions and inside functions of modules; back edges forming cycles of length 1-5; unknown module names) with main scripts importing at top level, in loops, in functions and conditionally, x optimizer on/off x encode/decode round trip, executed on two VMs over one Bytecode; each module body logs its start in a global array; every pair of imports of one module is probed for shared state and object identity; non-trivial = ran with probes / rejected at compile time as expected",
+        "file_module_graphs_run": fran, "importer_names_compared": npairs, "importer_name_disagreements": len(dis),
+        "evaluations": len(cases) + len(fcases) + npairs, "distinct_nontrivial": ran + cyc + fran,
+        "rule": "programs with 255, 256, 257 and 300 modules (module indexes around the byte boundary of the operand) with state and identity probes; generated import graphs over 1-5 source modules (DAGs with imports at top level, under conditions and inside functions of modules; back edges forming cycles of length 1-5; unknown module names) with main scripts importing at top level, in loops, in functions and conditionally, x optimizer on/off x encode/decode round trip, executed on two VMs over one Bytecode; each module body logs its start in a global array; every pair of imports of one module is probed for shared state and object identity; file modules through importers.FileImporter over a virtual tree: 2-5 files in nested directories importing each other and imported by a main script whose work directory is given relative, absolute or with redundant elements, every import spelled one of eight ways (canonical relative, ./, redundant . / x/.. / empty elements, climbing above the process directory and back, absolute, absolute with redundant elements, doubled separators), same probes, and FileImporter.Name compared with the model fi_name on every (work directory, spelling) used plus corner cases; non-trivial = ran with probes / rejected at compile time as expected",
         "samples": [cases[0]["main"], cases[0]["mods"][0]],
         "graphs_run": ran, "cycles_or_unknown_rejected": cyc, "oracle_failures": len(fails)})
 
